@@ -1123,7 +1123,9 @@ class Py2Cpp(ITranspiler):
 		elif spec == FuncCallSpec.Tags.dict and context_name == dict.get.__name__:
 			# 期待値: 'receiver.get'
 			receiver, operator = PatternParser.break_relay(calls)
-			return self.render(node, f'{node.classification}/{spec.name}_{context_name}', vars={**func_call_vars, 'receiver': receiver, 'operator': operator})
+			dict_get = self.render(node, f'{node.classification}/{spec.name}_{context_name}', vars={**func_call_vars, 'receiver': receiver, 'operator': operator})
+			# XXX 3項演算子に展開されるため、演算のオペランドとして使われる場合は括弧で囲う
+			return f'({dict_get})' if node.parent.is_a(defs.Operator) else dict_get
 		elif spec == FuncCallSpec.Tags.dict and context_name == dict.keys.__name__:
 			# 期待値: 'receiver.keys'
 			receiver, operator = PatternParser.break_relay(calls)
